@@ -8,4 +8,5 @@ CONSTANTS
   FixC = TRUE
   FixD = TRUE
   FixE = FALSE
+  Loading = FALSE
 INVARIANTS ClosedQuiet
